@@ -1098,9 +1098,21 @@ class Tracer:
                         c_next = []
                         for q3 in cur:
                             for q4, cv in self._expr(c, q3, fi, depth):
-                                if q4.status != 'raise':
+                                if q4.status == 'raise' or '$filtered' in q4.env:
+                                    c_next.append(q4)
+                                    continue
+                                tv = _truth(cv)
+                                if tv is not True and len(e.generators) == 1:
+                                    # the element does not pass the filter: (in the one-element view of the iteration) nothing is collected
+                                    qf = q4.fork()
+                                    self._add_fact(qf, cv, False)
+                                    qf.env['$filtered'] = const_val(True)
+                                    c_next.append(qf)
+                                if tv is not False:
                                     q4.facts.append(('comprehension-filter: ' + cv.text, True))
-                                c_next.append(q4)
+                                    if tv is None and len(e.generators) == 1:
+                                        self._add_fact(q4, cv, True)
+                                    c_next.append(q4)
                         cur = c_next
                     nxt.extend(cur)
             states = nxt
@@ -1109,7 +1121,7 @@ class Tracer:
         for el in elts:
             nxt = []
             for q, vals in results:
-                if q.status == 'raise':
+                if q.status == 'raise' or '$filtered' in q.env:
                     nxt.append((q, vals))
                     continue
                 for q2, v in self._expr(el, q, fi, depth):
@@ -1122,9 +1134,16 @@ class Tracer:
             for n in bound:
                 q.env.pop(n, None)
             q.env.update(saved)
+            filtered = q.env.pop('$filtered', None) is not None
             node = self._sub(e, q)
             tags = frozenset().union(*[v.tags for v in vals]) if vals else frozenset()
-            outs.append((q, Val(node, tags=tags | {'comprehension'}, elems=None)))
+            has_filter = any(g.ifs for g in e.generators) and len(e.generators) == 1
+            if filtered and isinstance(e, ast.ListComp):
+                outs.append((q, Val(ast.List(elts=[], ctx=ast.Load()), tags=tags | {'comprehension', 'filtered-out'}, elems=[])))
+            elif filtered:
+                outs.append((q, Val(node, tags=tags | {'comprehension', 'filtered-out'}, elems=None)))
+            else:
+                outs.append((q, Val(node, tags=tags | {'comprehension'} | ({'nonempty'} if has_filter and isinstance(e, (ast.ListComp, ast.SetComp, ast.DictComp)) else frozenset()), elems=None)))
         if len(outs) > self.max_paths:
             raise AnalysisError('tracer: path explosion in a comprehension of %s' % fi.qualname)
         return outs
@@ -1626,6 +1645,10 @@ def _is_generator(t):
 
 
 def _truth(v):
+    if v.const is NOCONST and 'nonempty' in v.tags:
+        return True
+    if v.const is NOCONST and 'filtered-out' in v.tags and isinstance(v.ast, (ast.ListComp, ast.SetComp, ast.DictComp)):
+        return False
     if v.const is NOCONST:
         if isinstance(v.ast, (ast.List, ast.Tuple, ast.Set, ast.Dict)) and 'maybe-empty' not in v.tags:
             items = v.ast.elts if not isinstance(v.ast, ast.Dict) else v.ast.keys
